@@ -3,6 +3,9 @@
   the code (no result list of triples, no numbering flags, no `has_recursed` bookkeeping):
 
   * a format string is a sequence of *parts*: literal text and `{name!conv:spec}` expressions;
+  * the `spec` of an expression may itself contain expressions (`{x:>{w}}`): it is expanded first, by
+    Python's own flat rules (`expandSpec`) — `rf` / `ff` and the format spec proper are read off the
+    expanded text;
   * an expression stands for the object found by following `name` through the context
     (`getField`), converted by `!r !s !a` (`convertField`);
   * `:rf` formats the referenced object recursively first, `:ff` leaves it as it is; inside a
@@ -56,33 +59,93 @@ def isFf (spec : List Char) : Bool := spec.take 2 = ['f', 'f']
 /-- the format spec proper: what follows a leading `rf` / `ff` -/
 def specBody (spec : List Char) : List Char := if isRf spec || isFf spec then spec.drop 2 else spec
 
-/-- The object an expression of a mixed string stands for, and the conversion still pending on it:
+/-! ### replacement fields nested in a format spec
+
+A format spec is itself a format string of Python's *own* formatter (no `rf`/`ff`, no type keeping):
+`{x:>{w}}` pads to the width found at `w`. A field nested in a spec may have a spec of its own
+(`{x:{w:>3}}`), but that one is the last level: a field in it is still looked up and converted, and
+then fails, because expanding *its* spec — even an empty one, CPython's depth check comes first —
+raises "Max string recursion exceeded".
+Nothing here is numbered: an empty or all-digit name inside a spec refers to the positional
+arguments, of which formatting with a context has none, so `getField` fails on it.
+
+The parser is lazy, so the parts read before a syntax error are expanded before the error surfaces:
+the first failing lookup / conversion / `format()` wins, a syntax error comes last. -/
+
+/-- the text a field nested in a format spec stands for: `format(convert(lookup), expanded inner spec)` -/
+def nestedField (ctx : Ctx) (inner : List Char → Except Exc (List Char)) (f : FieldT) : Except Exc (List Char) := do
+  -- `{}` inside a spec is the positional argument 0
+  let obj ← getField ctx (if f.name = [] then ['0'] else f.name)
+  let obj ← convertField obj f.conv
+  let spec ← inner f.spec
+  formatField obj spec
+
+/-- literals (with `{{`/`}}` unescaped by the parser) and nested fields, concatenated left to right -/
+def expandParts (ctx : Ctx) (inner : List Char → Except Exc (List Char)) : List Part → Except Exc (List Char)
+  | [] => pure []
+  | .lit t :: ps => do
+    let rest ← expandParts ctx inner ps
+    pure (t ++ rest)
+  | .fld f :: ps => do
+    let t ← nestedField ctx inner f
+    let rest ← expandParts ctx inner ps
+    pure (t ++ rest)
+
+/-- one level of expansion of the text `s`, the specs of its fields expanded by `inner` -/
+def expandText (ctx : Ctx) (inner : List Char → Except Exc (List Char)) (s : List Char) : Except Exc (List Char) := do
+  let t ← expandParts ctx inner (parts (parseTuples s).1)
+  match (parseTuples s).2 with
+  | some e => throw e
+  | none => pure t
+
+/-- **The expanded format spec** of a top-level expression: nested fields, whose own specs are expanded
+    with "Max string recursion exceeded" for every field in them. -/
+def expandSpec (ctx : Ctx) (spec : List Char) : Except Exc (List Char) :=
+  expandText ctx (expandText ctx (fun _ => .error errMaxRecursion)) spec
+
+/-! ### one expression -/
+
+/-- What an expression of a mixed string stands for, once its object `obj` is found and its format spec
+    expanded to `spec`: the object, the conversion still pending on it, and the spec.
     `:rf` (or an enclosing recursive format, unless `:ff`) formats the referenced object recursively
     and converts the result; `:ff` converts the object as it is; a plain expression is converted
     when the text is put together (which only matters for which error comes first). -/
-def fieldObj (deep : Bool → Val → Except Exc Val) (ctx : Ctx) (isRec : Bool) (f : FieldT) :
-    Except Exc (Val × Option Char) := do
-  let obj ← getField ctx f.name
-  if isRf f.spec || (isRec && !isFf f.spec) then do
+def applyMode (deep : Bool → Val → Except Exc Val) (isRec : Bool) (conv : Option Char) (obj : Val)
+    (spec : List Char) : Except Exc (Val × Option Char × List Char) :=
+  if isRf spec || (isRec && !isFf spec) then do
     let o ← deep true obj
-    let o ← convertField o f.conv
-    pure (o, none)
-  else if isFf f.spec then do
-    let o ← convertField obj f.conv
-    pure (o, none)
-  else pure (obj, f.conv)
+    let o ← convertField o conv
+    pure (o, none, spec)
+  else if isFf spec then do
+    let o ← convertField obj conv
+    pure (o, none, spec)
+  else pure (obj, conv, spec)
 
-/-- A string that is exactly one expression: the referenced object itself, recursively formatted
-    (unless `:ff`), then converted if a conversion is given, and turned into text only by a format
-    spec. The recursive flag is on for `:rf` and inside a recursive format. -/
+/-- An expression of a mixed string: look the object up, expand the format spec (`rf` / `ff` are read
+    off the *expanded* spec: `{s:{k}}` with `k = 'rf'` is recursive), then by mode. -/
+def fieldObj (deep : Bool → Val → Except Exc Val) (ctx : Ctx) (isRec : Bool) (f : FieldT) :
+    Except Exc (Val × Option Char × List Char) := do
+  let obj ← getField ctx f.name
+  let spec ← expandSpec ctx f.spec
+  applyMode deep isRec f.conv obj spec
+
+/-- A single expression whose object is `obj` and whose expanded spec is `spec`: the object itself,
+    recursively formatted (unless `:ff`), then converted if a conversion is given, and turned into
+    text only by a format spec. The recursive flag is on for `:rf` and inside a recursive format. -/
+def singleObj (deep : Bool → Val → Except Exc Val) (isRec : Bool) (conv : Option Char) (obj : Val)
+    (spec : List Char) : Except Exc Val := do
+  let obj ← if isFf spec then pure obj else deep (isRf spec || isRec) obj
+  let obj ← convertField obj conv
+  if specBody spec = [] then pure obj
+  else do
+    let t ← formatField obj (specBody spec)
+    pure (.str (String.ofList t))
+
+/-- A string that is exactly one expression. -/
 def formatSingle (deep : Bool → Val → Except Exc Val) (ctx : Ctx) (isRec : Bool) (f : FieldT) : Except Exc Val := do
   let obj ← getField ctx f.name
-  let obj ← if isFf f.spec then pure obj else deep (isRf f.spec || isRec) obj
-  let obj ← convertField obj f.conv
-  if specBody f.spec = [] then pure obj
-  else do
-    let t ← formatField obj (specBody f.spec)
-    pure (.str (String.ofList t))
+  let spec ← expandSpec ctx f.spec
+  singleObj deep isRec f.conv obj spec
 
 /-- phase 1 of a mixed string: resolve every expression, left to right -/
 def resolve (deep : Bool → Val → Except Exc Val) (ctx : Ctx) (isRec : Bool) :
@@ -92,9 +155,9 @@ def resolve (deep : Bool → Val → Except Exc Val) (ctx : Ctx) (isRec : Bool) 
     let rest ← resolve deep ctx isRec ps
     pure (.inl t :: rest)
   | .fld f :: ps => do
-    let (obj, pending) ← fieldObj deep ctx isRec f
+    let (obj, pending, spec) ← fieldObj deep ctx isRec f
     let rest ← resolve deep ctx isRec ps
-    pure (.inr (obj, pending, specBody f.spec) :: rest)
+    pure (.inr (obj, pending, specBody spec) :: rest)
 
 /-- phase 2: the text — `format(convert(object), spec)` of every expression between the literals -/
 def render : List (List Char ⊕ (Val × Option Char × List Char)) → Except Exc (List Char)
